@@ -203,7 +203,18 @@ Rational(op, k, v) == CASE op = "l2" -> IsSquare(Norm2(v))
                         [] op = "normsparse" -> IsSquare(BestEnergy(v, k))
                         [] OTHER -> TRUE
 \* inputs excluded by the specification: the answer is undefined / every feasible point is nearest
+\* For the zero input every point of the constraint set of these two operators is equally near (normalised sparsity) /
+\* the rescaling is undefined (max-normalisation): the operators then return "a point of the constraint set"; ANY
+\* feasible point is an allowed answer there (clauses Feasible and Idempotent still apply, Value is vacuous).
 Degenerate(op, v) == op \in {"normsparse", "normalize"} /\ \A i \in 1..Len(v) : v[i] = 0
+
+(* Environment of a call: the result is a function of the VALUES of the input only.  The binding repeats calls with   *)
+(* other memory layouts of the same values and under other floating-point-error / warning settings of the caller.    *)
+LayoutSet == {"C", "F", "strided", "readonly"}    \* C-contiguous, Fortran-ordered, strided view of a larger array, read-only
+ErrSet == {"default", "ignore", "raise", "warnerr"}  \* np.errstate(all=...) of the caller; warnings turned into errors
+\* whole-tensor operators (their docstrings act on the flattened tensor) are also given the input reshaped to a matrix
+WholeTensorOps == {"l2", "hard", "normsparse", "normalize"}
+ShapeSet == {<<>>, <<2, 2>>}
 
 -----------------------------------------------------------------------------
 (* Constraint sets and objectives, on a rational point num/den.                                   *)
@@ -507,14 +518,14 @@ Next == \/ /\ cfg.op = "starta"
                             t \in {t \in [1..cfg.n -> ArrTSet] : t[1] = cfg.t1}}
         \/ /\ cfg.op = "start"
            /\ cfg' \in {[op |-> cfg.fam.op, p |-> cfg.fam.p, q |-> cfg.fam.q, k |-> cfg.fam.k, dec |-> cfg.fam.dec, v |-> v]
-                          : v \in {v \in Vecs(cfg.n) : v[1] = cfg.head /\ ~Degenerate(cfg.fam.op, v)}}
+                          : v \in {v \in Vecs(cfg.n) : v[1] = cfg.head}}
         \/ /\ cfg.op = "startm"
            /\ Len(cfg.uf) = cfg.m /\ Len(cfg.vf) = cfg.n /\ FramePairOK(cfg.uf, cfg.vf)
            /\ cfg' \in {mc \in {[op |-> cfg.mop, p |-> cfg.p, q |-> cfg.q, m |-> cfg.m, n |-> cfg.n, uf |-> cfg.uf, vf |-> cfg.vf, c |-> c]
                                    : c \in Coefs(MinI(cfg.m, cfg.n), (-2)..2)} : ValidMat(mc)}
 Spec == Init /\ [][Next]_cfg
 MatOps == {"svt", "procrustes"}
-SpecOK == /\ cfg.op \notin {"start", "startm", "starta", "none", "l1arr"} \cup MatOps => CfgOK(cfg)
+SpecOK == /\ cfg.op \notin {"start", "startm", "starta", "none", "l1arr"} \cup MatOps => (Degenerate(cfg.op, cfg.v) \/ CfgOK(cfg))
           /\ cfg.op = "l1arr" => ArrOK(cfg)
           /\ cfg.op \in MatOps => ValidMat(cfg) /\ MatOK(cfg)
 =============================================================================
